@@ -2,14 +2,25 @@
 
 A thread program is a list of Python-level operations
     ["set", v] | ["get"] | ["clobber"] | ["sync"] | ["glob"] | ["call", [cop, ...]]
-    cop = ["cset", v] | ["cread"] | ["cb", [python-level operations]]
+    | ["tcall", [cop, ...], final]     the C script runs in a fresh pthread (one that never held the GIL); the
+                                       calling C function waits for it and then assigns errno = final
+    | ["raise", hops] | ["badret", hops]   only as the last executed operation of a callback body (or of an
+                                       onerror handler): the callback raises / returns a value that cannot be
+                                       converted; `hops` are the operations the onerror handler performs
+                                       (ignored when the callback was created without onerror)
+    cop = ["cset", v] | ["cread"] | ["cb", body] | ["cbe", body] (callback with onerror=)
+          | ["cbu"]  (API mode: an extern "Python" function with NO @ffi.def_extern() attached)
 `sync` is a scheduling point (also inside callbacks, i.e. in the middle of a C call, where the GIL is
 released): the schedule is the list of thread ids in the order in which they get their turns; a turn
 runs from one sync to the next.  Turns are handed over with locks used as semaphores — no sleeping.
+A pthread started by `tcall` runs inside the turns of the strand that started it (the starter is blocked
+in pthread_join); its observations are recorded separately: the result of strand t is the list
+[observations of the thread itself, of its 1st pthread, of its 2nd pthread, ...] in order of creation.
 Modes: "abi" (ffi.dlopen of the helper + ffi.callback: b_call / invoke_callback) and "api" (compiled
 module: generated wrappers with _cffi_restore_errno/_cffi_save_errno, extern "Python":
 cffi_call_python, global variable accessor).
 """
+import itertools
 import os
 import queue
 import subprocess
@@ -19,11 +30,33 @@ import _thread
 
 OVERFLOW = -999999
 C_SRC = os.path.join(os.environ.get("VERIF_ROOT", "/verif"), "tools", "props", "c", "c22_helper.c")
-CDEF = "int c22_run(int n, const int *script, int *out, int *k, int (*cb)(int));"
+CDEF = """int c22_run(int n, const int *script, int *out, int *k, int (*cb)(int), int (*cbe)(int), int (*cbu)(int));
+int c22_run_thread(int n, const int *script, int *out, int *k, int (*cb)(int), int (*cbe)(int), int (*cbu)(int),
+                   int final);"""
 
 
 class Env:
     pass
+
+
+class C22Exc(Exception):
+    pass
+
+
+class BadRet(Exception):
+    pass
+
+
+class LCtx:
+    """one logical thread: a strand's own thread or a pthread started by it"""
+    def __init__(self, strand):
+        self.strand, self.obs, self.calls = strand, [], []
+
+
+class Strand:
+    def __init__(self, t, ctl):
+        self.t, self.ctl = t, ctl
+        self.subs = [LCtx(self)]
 
 
 def setup(mode):
@@ -32,90 +65,134 @@ def setup(mode):
     e = Env()
     e.mode = mode
     e.tl = threading.local()
+    e.bodies = {}
+    e.ids = itertools.count()
+
+    def body(idx):
+        return run_body(e, idx)
+
+    def onerr(exc, val, tb):
+        lctx, hops = e.tl.last
+        try:
+            exec_py(e, lctx, hops)
+        except BadRet:
+            return "not an int"
+        return None
     if mode == "abi":
         so = os.path.join(work, "libc22helper.so")
         if not os.path.exists(so):
-            subprocess.check_call(["gcc", "-O1", "-shared", "-fPIC", "-o", so, C_SRC])
+            subprocess.check_call(["gcc", "-O1", "-shared", "-fPIC", "-pthread", "-o", so, C_SRC])
         ffi = cffi.FFI()
         ffi.cdef(CDEF)
         e.ffi, e.lib = ffi, ffi.dlopen(so)
-        e.cbptr = ffi.callback("int(int)", lambda idx: run_body(e, idx))
-        e.errno_owner = ffi
+        e.cbptr = ffi.callback("int(int)", body)
+        e.cbeptr = ffi.callback("int(int)", body, onerror=onerr)
+        e.cbuptr = ffi.NULL
+        e.keep = (body, onerr)
     else:
         ffi = cffi.FFI()
-        ffi.cdef(CDEF + '\nextern "Python" int c22_cb(int);\nint c22_glob;')
+        ffi.cdef(CDEF + '\nextern "Python" int c22_cb(int);\nextern "Python" int c22_cbe(int);\n'
+                 'extern "Python" int c22_cbu(int);\nint c22_glob;')
         import glob
         if not glob.glob(os.path.join(work, "_c22_api*.so")):      # built once by the first (build-only) worker
-            ffi.set_source("_c22_api", open(C_SRC).read())
+            ffi.set_source("_c22_api", open(C_SRC).read(), libraries=["pthread"])
             ffi.compile(tmpdir=work)
         sys.path.insert(0, work)
         import _c22_api
         e.ffi, e.lib = _c22_api.ffi, _c22_api.lib
-
-        @e.ffi.def_extern()
-        def c22_cb(idx):
-            return run_body(e, idx)
-        e.cbptr = e.lib.c22_cb
+        e.ffi.def_extern(name="c22_cb")(body)
+        e.ffi.def_extern(name="c22_cbe", onerror=onerr)(body)
+        # c22_cbu deliberately gets no @ffi.def_extern()
+        e.cbptr, e.cbeptr, e.cbuptr = e.lib.c22_cb, e.lib.c22_cbe, e.lib.c22_cbu
     return e
 
 
-def drain(e):
-    """append to the thread's observations what the innermost running C call has read so far"""
-    tl = e.tl
-    if tl.calls:
-        out, k, done = tl.calls[-1]
+def drain(lctx):
+    """append to the logical thread's observations what its innermost running C call has read so far"""
+    if lctx.calls:
+        out, k, done = lctx.calls[-1]
         while done < k[0]:
-            tl.obs.append(out[done])
+            lctx.obs.append(out[done])
             done += 1
-        tl.calls[-1] = (out, k, done)
+        lctx.calls[-1] = (out, k, done)
 
 
 def run_body(e, idx):
-    drain(e)
-    exec_py(e, e.tl.bodies[idx])
+    lctx, ops = e.bodies[idx]
+    drain(lctx)
+    try:
+        exec_py(e, lctx, ops)
+    except BadRet:
+        return "not an int"
     return 0
 
 
-def exec_py(e, ops):
-    tl, ffi = e.tl, e.ffi
+def build_script(e, cops, owner):
+    script, nread = [], 0
+    for c in cops:
+        if c[0] == "cset":
+            script += [4, c[1]]
+        elif c[0] == "cread":
+            script += [5, 0]
+            nread += 1
+        elif c[0] in ("cb", "cbe"):
+            idx = next(e.ids)
+            e.bodies[idx] = (owner, c[1])
+            script += [7 if c[0] == "cb" else 8, idx]
+        elif c[0] == "cbu":
+            if e.mode != "api":
+                raise ValueError("cbu needs API mode")
+            script += [9, 0]
+        else:
+            raise ValueError(c[0])
+    return script, nread
+
+
+def exec_py(e, lctx, ops):
+    ffi = e.ffi
     for op in ops:
         k = op[0]
         if k == "set":
             try:
                 ffi.errno = op[1]
             except OverflowError:
-                tl.obs.append(OVERFLOW)
+                lctx.obs.append(OVERFLOW)
         elif k == "get":
-            tl.obs.append(ffi.errno)
+            lctx.obs.append(ffi.errno)
         elif k == "clobber":
             try:
-                os.stat("/nonexistent-c22-%d" % tl.t)
+                os.stat("/nonexistent-c22-%d" % lctx.strand.t)
             except OSError:
                 pass
         elif k == "sync":
-            tl.ctl.sync(tl.t)
+            lctx.strand.ctl.sync(lctx.strand.t)
         elif k == "glob":
             if e.mode == "api":
                 if e.lib.c22_glob != 42:
-                    tl.obs.append(-777777)
-        elif k == "call":
-            script = []
-            nread = 0
-            for c in op[1]:
-                if c[0] == "cset":
-                    script += [4, c[1]]
-                elif c[0] == "cread":
-                    script += [5, 0]
-                    nread += 1
-                else:
-                    tl.bodies.append(c[1])
-                    script += [7, len(tl.bodies) - 1]
+                    lctx.obs.append(-777777)
+        elif k in ("call", "tcall"):
+            owner = lctx
+            if k == "tcall":
+                owner = LCtx(lctx.strand)
+                lctx.strand.subs.append(owner)
+            script, nread = build_script(e, op[1], owner)
             out = ffi.new("int[]", nread + 1)
             kk = ffi.new("int *", 0)
-            tl.calls.append((out, kk, 0))
-            e.lib.c22_run(len(script) // 2, ffi.new("int[]", script), out, kk, e.cbptr)
-            drain(e)
-            tl.calls.pop()
+            buf = ffi.new("int[]", script)
+            owner.calls.append((out, kk, 0))
+            if k == "call":
+                e.lib.c22_run(len(script) // 2, buf, out, kk, e.cbptr, e.cbeptr, e.cbuptr)
+            else:
+                if e.lib.c22_run_thread(len(script) // 2, buf, out, kk, e.cbptr, e.cbeptr, e.cbuptr, op[2]) != 0:
+                    lctx.obs.append(-888888)
+            drain(owner)
+            owner.calls.pop()
+        elif k == "raise":
+            e.tl.last = (lctx, op[1])
+            raise C22Exc("callback raises")
+        elif k == "badret":
+            e.tl.last = (lctx, op[1])
+            raise BadRet()
         else:
             raise ValueError(k)
 
@@ -139,12 +216,11 @@ class Ctl:
 
 
 def thread_main(e, ctl, t, prog, result):
-    tl = e.tl
-    tl.t, tl.obs, tl.bodies, tl.calls, tl.ctl = t, [], [], [], ctl
+    strand = Strand(t, ctl)
     try:
         ctl.wait_turn(t)
-        exec_py(e, prog)
-        result[t] = tl.obs
+        exec_py(e, strand.subs[0], prog)
+        result[t] = [c.obs for c in strand.subs]
         ctl.msgs.put((t, "end"))
     except SystemExit:
         pass
@@ -155,6 +231,7 @@ def thread_main(e, ctl, t, prog, result):
 
 def run_sched(e, progs, sched, timeout):
     n = len(progs)
+    e.bodies.clear()
     ctl = Ctl(n, timeout)
     result = [None] * n
     ths = [threading.Thread(target=thread_main, args=(e, ctl, t, progs[t], result), daemon=True) for t in range(n)]
@@ -197,14 +274,25 @@ def main(payload):
     out = []
     for mode in payload.get("build", []):
         envs[mode] = setup(mode)
-    for case in payload["cases"]:
-        mode = case["mode"]
-        if mode not in envs:
-            envs[mode] = setup(mode)
-        e = envs[mode]
-        r1 = run_sched(e, case["progs"], case["sched"], payload.get("timeout", 30))
-        r2 = run_sched(e, case["progs"], serial_sched(case["progs"], case["sched"]), payload.get("timeout", 30))
-        out.append(dict(inter=r1, alone=r2))
+    # cffi reports un-attached extern "Python" functions and exceptions in callbacks on stderr
+    sys.stderr.flush()
+    saved = os.dup(2)
+    null = os.open(os.devnull, os.O_WRONLY)
+    os.dup2(null, 2)
+    os.close(null)
+    try:
+        for case in payload["cases"]:
+            mode = case["mode"]
+            if mode not in envs:
+                envs[mode] = setup(mode)
+            e = envs[mode]
+            r1 = run_sched(e, case["progs"], case["sched"], payload.get("timeout", 30))
+            r2 = run_sched(e, case["progs"], serial_sched(case["progs"], case["sched"]), payload.get("timeout", 30))
+            out.append(dict(inter=r1, alone=r2))
+    finally:
+        sys.stderr.flush()
+        os.dup2(saved, 2)
+        os.close(saved)
     return dict(results=out)
 
 
